@@ -23,7 +23,7 @@ def run(ctx):
     import os
     for f in glob.glob(os.path.join(common.VERIF, "evidence", "replays", "C04-*.json")):
         os.remove(f)
-    ctx.extract(["gate", "gatesig", "gatereg"])
+    ctx.extract(["gate", "gatesig", "gatereg", "gatetab"])
     # three theorem modules over three regenerated modules, so that a change to check_roto_type / check_args /
     # get_function breaks the obligations of C04, a change to force_filtermap_types or TypeInfo::convert exactly
     # those of C04Sig and a change to a Value::resolve body or the registry exactly those of C04Reg
@@ -40,6 +40,9 @@ def run(ctx):
     prove(PROPS, ["RotoV.Lemmas.Gate", "RotoV.Model.Gate"], targets=("rotov-driver",))
     prove(PROPS + "Sig")
     prove(PROPS + "Reg")
+    # how Module::functions is built (Mir::lower, lir::lower, the helper generators, declare_function): a change
+    # there breaks exactly the obligations of C04Tab
+    prove(PROPS + "Tab", ["RotoV.Model.GateTab"])
     if parts:
         ctx.coverage["theorems"] = [t for p in parts for t in p["theorems"]]
         ctx.coverage["nonvacuity_examples"] = sum(p["nonvacuity_examples"] or 0 for p in parts)
